@@ -21,6 +21,13 @@ def prepare(prog):
                           outs=["current_batch", "current_pipeline_id"], yields_to="emitted")
     except KeyError:
         pass        # reported as unreachable on its own; the format-rule block below is independent
+    try:
+        # the statement after the loop of batch_by_pipeline: `if current_batch: ...; yield PipelineArrival(...)`
+        is_flush = lambda s: isinstance(s, ast.If) and any(isinstance(x, ast.Yield) for x in ast.walk(s))
+        extract_block(prog, f"{MC}:CSVWorkloadReader.batch_by_pipeline", "flush_row", is_flush, is_flush, ["self", "current_batch", "emitted"], "None",
+                      yields_to="emitted")
+    except KeyError:
+        pass
     is_start = lambda s: isinstance(s, ast.If) and ast.unparse(s.test) == "not batch"
     belongs = lambda s: not (isinstance(s, ast.Assign) and ast.unparse(s.targets[0]) == "pipeline")
     return extract_block(prog, f"{MC}:CSVWorkloadReader.create_pipeline_from_batch", "batch_format", is_start, belongs, ["batch"], "priority")
@@ -97,3 +104,15 @@ def declare2(S: Spec):
          raises={"ValueError": [], "KeyError": []},
          modifies=["contents(current_batch)", "contents(emitted)"], allocates=True,
          note="extracted: one iteration of `for row_dict in reader` of batch_by_pipeline; yield -> emitted.append")
+    S.fn(f"{MC}:flush_row", owners=["C14"],
+         params={"self": Ref("CSVWorkloadReader"), "current_batch": List(Row), "emitted": List(Ref("PipelineArrival"))},
+         locals={"arrival_seconds": Opt(REAL), "pipeline": Ref("Pipeline")},
+         requires=["self is not None and current_batch is not None and emitted is not None", "all(r is not None for r in current_batch)"],
+         ensures=[("the-last-open-batch-becomes-a-pipeline-too",
+                   "implies(len(current_batch) > 0, len(emitted) == old(len(emitted)) + 1 and emitted[len(emitted) - 1] is not None"
+                   " and emitted[len(emitted) - 1].arrival_seconds == current_batch[0].arrival_seconds)"),
+                  ("an-empty-file-yields-nothing", "implies(len(current_batch) == 0, len(emitted) == old(len(emitted)))"),
+                  ("pipelines-already-handed-out-stay", "all(emitted[j] is old(emitted[j]) for j in range(0, old(len(emitted))))")],
+         raises={"ValueError": [], "KeyError": []},
+         modifies=["contents(emitted)"], allocates=True,
+         note="extracted: the statement after the loop of batch_by_pipeline; yield -> emitted.append")
